@@ -188,7 +188,7 @@ def random_schedule(rnd, sid, T):
 def make_schedules(ctx, bfs, deep):
     rnd = random.Random(ctx.seed)
     T = 250
-    n_bfs, n_rand = (1400, 1000) if ctx.quick() else (8000, 5000)
+    n_bfs, n_rand = (1000, 800) if ctx.quick() else (8000, 5000)
     # every (action, result) pair of the graph is taken at least a few times, the rest is a seeded sample
     by_last = {}
     for b in bfs:
@@ -205,7 +205,7 @@ def make_schedules(ctx, bfs, deep):
         sid += 1
         scheds.append(from_behaviour(b, rnd, sid, T, "tlc"))
     deep = [b for b in deep if len(b) >= 12]
-    for b in rnd.sample(deep, min(len(deep), 150 if ctx.quick() else 1000)):
+    for b in rnd.sample(deep, min(len(deep), 100 if ctx.quick() else 1000)):
         sid += 1
         scheds.append(from_behaviour(b, rnd, sid, T, "tlc-sim"))
     for _ in range(n_rand):
